@@ -17,6 +17,7 @@ var commands = map[string]func([]string){
 	"asteq": cmdAsteq,
 	"vrace": cmdVrace,
 	"isgen": cmdIsgen,
+	"c18":   cmdC18,
 }
 
 func main() {
